@@ -1,6 +1,11 @@
 HOOK_COMMITS = []
 NOT_APPLICABLE = {}
 TEXTS = {
+ "C14": {
+  "technique": "property-based testing (rapid): differential against an independent reference projection, byte-level non-mutation invariant of the stored document, idempotence of repeated projection, driver-level aliasing checks",
+  "level_text": "Generated search over documents and projection documents with three oracles: byte-identity of the stored document before/after every projection (reference-free, also outside the agreement domain), agreement with an independently written reference projection (inclusion, exclusion, _id, $slice windows, $elemMatch first match, inclusion/exclusion mix rejected) up to field order, and driver-level checks that Find/FindOne/FindOneAnd* project identically, that decoded results can be overwritten without touching the store and that plain projections only return stored values. Sampling, not proof.",
+  "level_note": "Trusts ref.Project/ref.Match inside DESIGN.md 8.3; field order of results is not compared.",
+ },
  "C13": {
   "technique": "property-based testing (rapid): generated collections x filters x sorts x skip/limit through the driver API, checked against validity predicates (permutation, order, stability, exact window) and a reference matcher / comparator",
   "level_text": "Generated search over collections, filters, sort specifications and windows, executed through lungo's driver API, with validity oracles that admit exactly the outputs the property allows: permutation of the matching set, monotone under the reference sort key, ties in insertion order, windows equal to slices of the full ordering, sorted single-document writes hitting the first element, Distinct ascending and set-equal to the reference value set. Sampling, not proof.",
